@@ -39,7 +39,9 @@ ASSUMPTIONS = [
     "continuous comparisons use rtol 1e-9; lengths and indices are compared exactly",
 ]
 RULE = ("cooling programs drawn from a structured generator (0-4 holds, durations 0 / <dt / multiples of dt / "
-        "arbitrary, ramps shorter than a step, t_tot not a multiple of dt), an exact dyadic stream compared "
+        "arbitrary, ramps shorter than a step, t_tot not a multiple of dt), object histories (sample / edit the program / "
+        "run a consumer on the SAME object, then sample: must equal a fresh object with the current program; the model is a "
+        "pure function, so this clause rests on the correspondence), an exact dyadic stream compared "
         "against the model instantiated at Rat, and a small malformed stream; a case is non-trivial when the "
         "program has at least one ramp sample and is distinct by its JSON form")
 EXPLANATION = "Lean theorems over the reals about the profile model + differential check of the model against OperatingConditions.tempProfile"
@@ -61,12 +63,93 @@ def _mk_opcond(case):
     return OperatingConditions(t_tot=case["t_tot"], cooling=cooling, holding=holding)
 
 
+_CFG0D = None
+
+
+def _cfg0d():
+    """temp YAML selecting the homogeneous Snowing model (a cheap profile consumer)"""
+    global _CFG0D
+    if _CFG0D is None:
+        import tempfile
+        f = tempfile.NamedTemporaryFile("w", suffix=".yaml", delete=False, prefix="snowverif_c05_")
+        f.write("snowing_parameters:\n  dimensionality: homogeneous\n  configuration: shelf\n")
+        f.close()
+        _CFG0D = f.name
+    return _CFG0D
+
+
+def _final_params(case):
+    """program parameters after the edits of a history case"""
+    c = copy.deepcopy(case)
+    for op in case.get("ops", []):
+        if op[0] == "set_end":
+            c["stop"] = op[1]
+        elif op[0] == "set_rate":
+            c["rate"] = op[1]
+        elif op[0] == "set_ttot":
+            c["t_tot"] = op[1]
+        elif op[0] == "set_hold_duration" and c["holds"]:
+            # holds are addressed in the constructor's order (descending temp, duration)
+            hs = sorted(c["holds"], key=lambda h: (h[0], h[1]), reverse=True)
+            hs[op[1] % len(hs)][1] = op[2]
+            c["holds"] = hs
+    c.pop("ops", None)
+    return c
+
+
+def _apply_history(oc, case):
+    """sample / edit / consume the SAME object; returns (program snapshots equal?, notes)"""
+    notes = []
+    for op in case["ops"]:
+        if op[0] == "sample":
+            before = copy.deepcopy(oc.holding)
+            p = oc.tempProfile(op[1])
+            if copy.deepcopy(oc.holding) != before:
+                notes.append("holding mutated by tempProfile")
+            p += 0.0  # a caller may legitimately work on the returned array …
+            p[:] = 12345.0  # … even overwrite it: the next sampling must not see that
+        elif op[0] == "set_end":
+            oc.cooling["end"] = op[1]
+        elif op[0] == "set_rate":
+            oc.cooling["rate"] = op[1]
+        elif op[0] == "set_ttot":
+            oc.t_tot = op[1]
+        elif op[0] == "set_hold_duration" and oc.holding:
+            oc.holding[op[1] % len(oc.holding)]["duration"] = op[2]
+        elif op[0] == "consume0D":
+            try:
+                from ethz_snow.snowing import Snowing
+                Snowing(k={"int": 0, "ext": 0, "s0": 50}, opcond=oc, configPath=_cfg0d()).run()
+            except Exception as e:  # too short a program etc.: irrelevant here
+                notes.append("consume0D:" + core.exc_class(e))
+        elif op[0] == "consumeFlake":
+            try:
+                from ethz_snow.snowflake import Snowflake
+                Snowflake(k={"int": 0, "ext": 0, "s0": 20}, N_vials=(1, 1, 1), dt=op[1], opcond=oc).run()
+            except Exception as e:
+                notes.append("consumeFlake:" + core.exc_class(e))
+    return notes
+
+
 def run_impl(case):
     obs = {"raise": None}
     try:
         oc = _mk_opcond(case)
     except Exception as e:
         return {"raise": core.exc_class(e), "stage": "init"}
+    if case.get("ops"):
+        # object history: the profile finally sampled must be that of the CURRENT program,
+        # whatever was sampled, edited or consumed on the object before
+        try:
+            obs["history_notes"] = _apply_history(oc, case)
+            fin = _final_params(case)
+            p = oc.tempProfile(case["dt"])
+            obs["profile"] = [float(x) for x in p]
+            obs["n"] = int(np.ceil(fin["t_tot"] / case["dt"])) + 1
+            obs["profile_fresh"] = [float(x) for x in _mk_opcond(fin).tempProfile(case["dt"])]
+        except Exception as e:
+            return {"raise": core.exc_class(e), "stage": "history"}
+        return obs
     try:
         p = oc.tempProfile(case["dt"])
         obs["profile"] = [float(x) for x in p]
@@ -97,6 +180,8 @@ def run_impl(case):
 
 
 def _req(case, mode):
+    if case.get("ops"):
+        case = _final_params(case)
     enc = f2b if mode == "float" else f2q
     r = {
         "op": "tempProfile",
@@ -201,6 +286,18 @@ def _program(case):
 
 def predicates(case, impl):
     out = []
+    if case.get("ops"):
+        if not impl.get("raise"):
+            if impl.get("history_notes") and any(n.startswith("holding mutated") for n in impl["history_notes"]):
+                out.append(Failure(clause="profile_is_function_of_program", key="history|tempProfile|mutates-program",
+                                   detail="tempProfile() changed the object's holding list"))
+            a, b = impl["profile"], impl["profile_fresh"]
+            if len(a) != len(b) or any(x != y for x, y in zip(a, b)):
+                out.append(Failure(clause="profile_is_function_of_program", key="history|tempProfile|stale-or-aliased",
+                                   detail="after sampling/editing/consuming the same object the profile differs from "
+                                          "that of a fresh object with the current program "
+                                          f"(first difference at {next((i for i,(x,y) in enumerate(zip(a,b)) if x!=y), min(len(a),len(b)))})"))
+        case = _final_params(case)
     if not _wf(case):
         return out
     site = "tempProfile"
@@ -374,8 +471,42 @@ def _malformed(rng):
     return dict(kind="malformed", t_tot=10, start=start, stop=start, rate=0, holds=[[start, 2]], isList=True, dt=1)
 
 
+def _history(rng):
+    c = _structured(rng, small=True)
+    while c["rate"] == 0 or c["t_tot"] / c["dt"] > 400:
+        c = _structured(rng, small=True)
+    c["kind"] = "history"
+    c.pop("flake", None)
+    ops = []
+    dt = c["dt"]
+    for _ in range(rng.randint(1, 4)):
+        k = rng.choice(["sample", "sample", "set_end", "set_rate", "set_ttot", "set_hold_duration",
+                        "consumeFlake", "consume0D" if rng.random() < 0.15 else "sample"])
+        if k == "sample":
+            ops.append(["sample", rng.choice([dt, dt, 1, 0.1, 2 * dt])])
+        elif k == "set_end":
+            ops.append(["set_end", c["stop"] - rng.choice([0, 1, 7.5, 20])])
+        elif k == "set_rate":
+            ops.append(["set_rate", c["rate"] * rng.choice([0.8, 1.25, 0.999, 2])])
+        elif k == "set_ttot":
+            ops.append(["set_ttot", max(0.0, c["t_tot"] * rng.choice([0.5, 1.0, 1.7]) + rng.choice([0, dt / 3]))])
+        elif k == "set_hold_duration":
+            if c["holds"] and c.get("isList", True):
+                ops.append(["set_hold_duration", rng.randint(0, 3), rng.choice([0, dt / 2, 3 * dt, 17.0])])
+        elif k == "consumeFlake":
+            ops.append(["consumeFlake", dt])
+        else:
+            ops.append(["consume0D"])
+    if not any(o[0] == "sample" for o in ops):
+        ops.insert(0, ["sample", dt])
+    c["ops"] = ops
+    return c
+
+
 def cases(rng, tier):
     n_struct, n_exact, n_mal = (1500, 600, 40) if tier == "quick" else (40000, 12000, 400)
+    for _ in range(120 if tier == "quick" else 2500):
+        yield _history(rng)
     for _ in range(n_struct):
         yield _structured(rng, small=(tier == "quick"))
     for _ in range(n_exact):
